@@ -41,6 +41,9 @@ pub struct WireCase {
     /// one transient read error (Interrupted / WouldBlock / TimedOut) at this read call
     #[serde(default)]
     pub error_at: Option<(usize, String)>,
+    /// the driver writes a command before every receive (pipelining caller)
+    #[serde(default)]
+    pub send_between: bool,
 }
 
 pub struct Material {
@@ -97,6 +100,7 @@ fn run_case(case: &WireCase, m: &Material, extra: usize) -> Outcome {
         flavour: case.flavour,
         extra_receives: extra,
         error_at: case.error_at.clone(),
+        send_between: case.send_between,
     })
 }
 
@@ -624,6 +628,8 @@ impl Check for C03 {
         known: &KnownFindings,
     ) {
         let mut rng = Rng::new(mix(seed, "C03", index));
+        // a third of the run indexes write a command before every receive (pipelining caller)
+        let send_between = rng.chance(1, 3);
         let class = gen::gen_class_with_huge(&mut rng);
         let greeting = if rng.chance(1, 8) {
             gen::valid_greeting(&gen::gen_version(&mut rng))
@@ -701,6 +707,7 @@ impl Check for C03 {
                     },
                     flavour: fl,
                     error_at: None,
+                    send_between: send_between,
                 };
                 ctx.about_to_eval(&case);
                 let ev = eval_c03(&case);
@@ -1082,6 +1089,7 @@ impl Check for C10 {
                         },
                         flavour: fl,
                     error_at: None,
+                    send_between: false,
                     };
                     ctx.about_to_eval(&case);
                     let ev = eval_c10(&case);
@@ -1109,6 +1117,7 @@ impl Check for C10 {
                     pending: if fl == Flavour::Async { pending.clone() } else { vec![0] },
                     flavour: fl,
                     error_at: None,
+                    send_between: false,
                 };
                 // how many reads does the undisturbed run take?
                 let reads = run_case(&case, &case.materialize(), 0).reads;
@@ -1291,6 +1300,8 @@ impl Check for C02 {
         known: &KnownFindings,
     ) {
         let mut rng = Rng::new(mix(seed, "C02", index));
+        // a third of the run indexes write a command before every receive (pipelining caller)
+        let send_between = rng.chance(1, 3);
         let class = gen::gen_class_with_huge(&mut rng);
         let greeting = gen::default_greeting();
         // stream kinds: well-formed, truncated, corrupted, raw soup
@@ -1348,6 +1359,7 @@ impl Check for C02 {
             pending: vec![0],
             flavour: Flavour::Blocking,
                     error_at: None,
+                    send_between: send_between,
         };
         ctx.about_to_eval(&base);
         let m = base.materialize();
@@ -1607,6 +1619,8 @@ impl Check for C09 {
         known: &KnownFindings,
     ) {
         let mut rng = Rng::new(mix(seed, "C09", index));
+        // a third of the run indexes write a command before every receive (pipelining caller)
+        let send_between = rng.chance(1, 3);
         let greeting = gen::default_greeting();
         let corpus = gen::edge_corpus();
         let mut sweep_all_offsets: Option<(Vec<AbsResp>, usize)> = None;
@@ -1703,6 +1717,7 @@ impl Check for C09 {
                 pending: vec![0],
                 flavour: Flavour::Blocking,
                 error_at: None,
+                    send_between: false,
             };
             let m = probe.materialize();
             let glen = m.barrier.unwrap_or(m.stream.len());
@@ -1730,6 +1745,7 @@ impl Check for C09 {
                         },
                         flavour: fl,
                     error_at: None,
+                    send_between: send_between,
                     };
                     ctx.about_to_eval(&case);
                     let ev = eval_c09(&case);
@@ -1981,6 +1997,7 @@ pub fn run_greeting_index<C: Clone + serde::Serialize>(
                 },
                 flavour: fl,
                     error_at: None,
+                    send_between: false,
             };
             ctx.about_to_eval(&wrap(case.clone()));
             let ev = eval_greeting(&case);
